@@ -312,6 +312,7 @@ func init() {
 				// (earlier appends into the same buffer) is gone as well
 				lo, hi := span(full)
 				x.noteWrite(full)
+				x.ep.noteClientWrite()
 				for _, res := range x.results {
 					if res == nil {
 						continue
